@@ -196,6 +196,13 @@ fn fingerprint(res: &ConnResult, log: &[(usize, Cb)], out: &[u8], flushed: usize
     h.finish()
 }
 
+/// for transports that do not go through `run_conn` (the TLS transport of C18): count this
+/// connection and its observable outcome like any other
+pub fn record_connection(res: &ConnResult, log: &[Cb], client_saw: &[u8]) {
+    let l: Vec<(usize, Cb)> = log.iter().cloned().map(|c| (0, c)).collect();
+    record_outcome(fingerprint(res, &l, client_saw, client_saw.len()));
+}
+
 fn record_outcome(fp: u64) {
     OUTCOMES.with(|o| {
         let mut o = o.borrow_mut();
